@@ -189,10 +189,14 @@ pub fn cmd_pwstr(args: &[String]) {
             let memb: usize = k.parse::<usize>().unwrap() * 1024 + rem;
             rep.evaluations += 1;
             rep.case(&format!("costrow|{}|{}|{}|{}|{}", m, t, ops, k, rem));
+            let wide = r["wide"].as_bool().unwrap_or(false);
             let sn = so_needs(&st, opsn, memb);
-            if sn < 0 || (sn != 0) != needs { rep.fail("libsodium's needs_rehash differs from the specification's cost table (specification error)", json!({"row": r, "sodium": sn})); continue; }
+            // a request beyond 32 bits: libsodium answers with an error, the table with "needs a rehash" - never with "no"
+            if wide { if sn == 0 || !needs { rep.fail("a request beyond 32 bits matches a stored cost in libsodium or in the cost table (specification error)", json!({"row": r, "sodium": sn})); continue; } }
+            else if sn < 0 || (sn != 0) != needs { rep.fail("libsodium's needs_rehash differs from the specification's cost table (specification error)", json!({"row": r, "sodium": sn})); continue; }
             match catch(|| cp::crypto_pwhash_str_needs_rehash(&st, opsn, memb)) {
                 Ok(Ok(b)) => if b != needs { rep.fail("needs_rehash differs from the specification's cost table", json!({"row": r, "got": b, "string": st, "memlimit_bytes": memb})); },
+                Ok(Err(_)) if wide => {}
                 Ok(Err(e)) => rep.fail("needs_rehash failed on a valid string", json!({"row": r, "err": format!("{:?}", e)})),
                 Err(pn) => rep.fail("needs_rehash panicked", json!({"row": r, "panic": pn})),
             }
